@@ -30,6 +30,10 @@ func (re *Regexp) Split(input string, count int) ([]string, error) {
 		count = math.MaxInt
 	}
 
+	if re.RightToLeft() {
+		return re.splitRightToLeft(input, count)
+	}
+
 	// iterate through the matches
 	priorIndex := 0
 	var retVal []string
@@ -63,5 +67,50 @@ func (re *Regexp) Split(input string, count int) ([]string, error) {
 	// append our remainder
 	retVal = append(retVal, string(txt[priorIndex:]))
 
+	return retVal, nil
+}
+
+// splitRightToLeft is Split for right-to-left patterns. Matches arrive from
+// the end of the input towards the start, so the pieces are collected in that
+// order and reversed at the end; the result reads left to right, exactly like
+// the result for a left-to-right pattern with the same matches.
+func (re *Regexp) splitRightToLeft(input string, count int) ([]string, error) {
+	var retVal []string
+	var txt []rune
+	priorIndex := 0
+
+	m, err := re.FindStringMatch(input)
+
+	for ; m != nil && count > 0; m, err = re.FindNextMatch(m) {
+		if txt == nil {
+			txt = m.text.runes
+			priorIndex = len(txt)
+		}
+		// the text between this match and the previous one (which is to its right)
+		retVal = append(retVal, string(txt[m.RuneIndex+m.RuneLength:priorIndex]))
+		// capture groups, last first because the whole list is reversed below
+		gs := m.Groups()
+		for i := len(gs) - 1; i >= 1; i-- {
+			retVal = append(retVal, gs[i].String())
+		}
+		priorIndex = m.RuneIndex
+		count--
+	}
+
+	if err != nil {
+		return nil, err
+	}
+
+	if txt == nil {
+		// we never matched, return the original string
+		return []string{input}, nil
+	}
+
+	// the text to the left of the last match found
+	retVal = append(retVal, string(txt[:priorIndex]))
+
+	for l, r := 0, len(retVal)-1; l < r; l, r = l+1, r-1 {
+		retVal[l], retVal[r] = retVal[r], retVal[l]
+	}
 	return retVal, nil
 }
